@@ -15,6 +15,8 @@
 
 #define SLOT 24
 static uint8_t g_slot[SLOT];          /* the storage slot */
+static uint8_t g_slot2[SLOT];         /* where the storage moves to when MOVING is set (set may delete, compact and reallocate) */
+static bool g_moving; static uint8_t *g_cur;
 static size_t g_slot_size; static int g_slot_type; static const char *g_slot_name;
 static int g_sets, g_gets; static bool g_bad;
 static int stub_slot_control(struct udict *udict, int command, va_list args)
@@ -27,7 +29,11 @@ static int stub_slot_control(struct udict *udict, int command, va_list args)
         uint8_t **attr_p = va_arg(args, uint8_t **);
         if (size > SLOT) return UBASE_ERR_ALLOC;
         g_slot_size = size; g_slot_type = type; g_slot_name = name; g_sets++;
-        if (attr_p != NULL) *attr_p = g_slot;
+        if (g_moving) {            /* the storage moves: whatever pointed into the old place is stale (junk from now on) */
+            for (int k = 0; k < SLOT; k++) g_slot[k] = (uint8_t)(0xA5 ^ k);
+            g_cur = g_slot2;
+        } else g_cur = g_slot;
+        if (attr_p != NULL) *attr_p = g_cur;
         return UBASE_ERR_NONE;
     }
     case UDICT_GET: {
@@ -38,7 +44,7 @@ static int stub_slot_control(struct udict *udict, int command, va_list args)
         g_gets++;
         if (g_sets == 0 || (int)type != g_slot_type || name != g_slot_name) return UBASE_ERR_INVALID;
         if (size_p != NULL) *size_p = g_slot_size;
-        if (attr_p != NULL) *attr_p = g_slot;
+        if (attr_p != NULL) *attr_p = g_cur;
         return UBASE_ERR_NONE;
     }
     default: g_bad = true; return UBASE_ERR_UNHANDLED;
@@ -48,7 +54,7 @@ static int stub_slot_mgr_control(struct udict_mgr *mgr, int command, va_list arg
 static struct udict_mgr g_dmgr; static struct udict g_dict;
 static const char g_name[] = "x.y";
 #define BUILD() \
-    g_dmgr.udict_control = stub_slot_control; g_dmgr.udict_mgr_control = stub_slot_mgr_control; g_dict.mgr = &g_dmgr; g_sets = g_gets = 0; g_bad = false; \
+    g_dmgr.udict_control = stub_slot_control; g_dmgr.udict_mgr_control = stub_slot_mgr_control; g_dict.mgr = &g_dmgr; g_sets = g_gets = 0; g_bad = false; g_moving = false; g_cur = g_slot; \
     VIN_ARR(uint8_t, junk, SLOT); for (int k_ = 0; k_ < SLOT; k_++) g_slot[k_] = junk[k_]; \
     VIN(int, typev); VASSUME(typev > UDICT_TYPE_END); enum udict_type type = (enum udict_type)typev; \
     struct udict *d = &g_dict
@@ -128,6 +134,36 @@ void h_string(void)
     bool before_end = true;
     for (int k = 0; k < 8; k++) { if (k >= gi) break; if (expect[k] == 0) before_end = false; }
     VPOST(!before_end || (out != NULL && out[gi] == expect[gi]));            /* same characters up to and including the terminator */
+    VCANARY();
+}
+/* values that point INTO the dictionary (e.g. f.def := f.rawdef of the same uref) while set moves the storage: the setters
+ * must have copied the value before asking for the slot */
+void h_opaque_alias(void)
+{
+    BUILD(); VIN(uint8_t, n2); VIN(uint8_t, aoff); VASSUME(n2 >= 1 && n2 <= 6 && aoff <= 8);
+    g_moving = true;
+    uint8_t expect[6]; for (int k = 0; k < 6; k++) expect[k] = g_slot[aoff + k];
+    struct udict_opaque in = { g_slot + aoff, n2 }, out = { NULL, 0 };
+    int r1 = udict_set_opaque(d, in, type, g_name);
+    int r2 = udict_get_opaque(d, &out, type, g_name);
+    VPOST(r1 == UBASE_ERR_NONE && r2 == UBASE_ERR_NONE && out.size == n2 && out.v == g_slot2 && !g_bad);
+    VIN(uint8_t, gi2); VASSUME(gi2 < 6);
+    VPOST(gi2 >= n2 || g_slot2[gi2] == expect[gi2]);
+    VCANARY();
+}
+void h_string_alias(void)
+{
+    BUILD(); VIN(uint8_t, aoff2); VIN(uint8_t, len); VASSUME(aoff2 <= 8 && len <= 5);
+    g_moving = true;
+    for (int k = 0; k < 6; k++) if (k < len) { if (g_slot[aoff2 + k] == 0) g_slot[aoff2 + k] = 'x'; }
+    g_slot[aoff2 + len] = 0;                      /* a string of exactly len characters inside the storage */
+    char expect[6]; for (int k = 0; k < 6; k++) expect[k] = (char)g_slot[aoff2 + k];
+    const char *out = NULL;
+    int r1 = udict_set_string(d, (const char *)g_slot + aoff2, type, g_name);
+    int r2 = udict_get_string(d, &out, type, g_name);
+    VPOST(r1 == UBASE_ERR_NONE && r2 == UBASE_ERR_NONE && out == (const char *)g_slot2 && g_slot_size == (size_t)len + 1 && !g_bad);
+    VIN(uint8_t, gi3); VASSUME(gi3 < 6);
+    VPOST(gi3 > len || g_slot2[gi3] == (uint8_t)expect[gi3]);
     VCANARY();
 }
 #ifdef VENTRY
